@@ -282,6 +282,9 @@ class World:
         self.zero_rets = {}         # fname -> src: integer functions that can return such a value (derived, transitively)
         self.zero_params = {}       # (fname, i) -> src: integer parameters that receive such a value unchecked at some call (used for divisions in the callee only)
         self.mustdiv = {}           # (fname, i) -> True: the function divides by its i-th parameter unconditionally (one-level summaries, transitive)
+        self.out_taint = {}         # (fname, i) -> (src, lower bound on every return, upper bound on every return): on every normal return the function has stored a value
+                                    #   of the input through its i-th (pointer) parameter; the bounds say whether a test that excludes negative values / that limits it from
+                                    #   above dominates every return (derived in solve from the return states; used for host array indices)
         self.flag_kinds = {}        # (record, boolean field) -> {suffix ending in ->kind: kinds}: every store of `true` into the flag happens where the owner's
                                     #   sub-object has one of these kinds (validated at construction); derived by derive_flag_kinds
         self.truth_helpers = {}     # fname -> index of the Node parameter: on every path the function returns 1 exactly where a test of an evaluator's
@@ -511,6 +514,7 @@ class Engine:
         self.zrets = []        # sources of may-be-zero input values this function returns
         self.zero_args = {}    # (callee, i) -> src: may-be-zero input values handed on unchecked
         self.fstores = []      # (record, field, class, src, node): stores of integer values into record fields
+        self.idxs = {}         # subscript node id -> dict: host array subscripts whose index is a value of the input held in a variable (lower / upper bound known on every path?)
         self.evlocals = {}     # local (declared with an initializer, never assigned again) -> key of the evaluator call it holds
         self.ev_black = set()
         self.flag_stores = []  # (record, boolean field, constant stored | None, {suffix->kind: kinds known on the owner at the store})
@@ -884,6 +888,7 @@ class Engine:
             for s, (bv, iv) in self.ev_list(e.inner[:2], S):
                 if not addr:
                     self.check_deref(s, bv, e, '[]')
+                    self.note_index(s, e, iv)
                 base = bv.path if bv.path is not None else bv.addr_of
                 if base is not None and iv.const is not None:
                     if bv.path is not None:
@@ -1125,6 +1130,52 @@ class Engine:
             new = worse
         self.divs[key] = new
 
+    def note_index(self, S, node, iv):
+        """a subscript of one of the compiler's own arrays whose index evaluated to iv: if it is a value of the input obtained in this function (result of a
+        function derived to return one, a field that holds one, a value a callee stored through an out-parameter), is it bounded on this path?"""
+        if iv is None or iv.src is None or iv.src[0] != 'zero' or iv.nul not in ('N', 'NN', 'NULL') or (iv.const is not None and iv.path is None):
+            return
+        lb = ub = False
+        for q in (iv.path, S.ali.get(iv.path) if iv.path else None):
+            if q is None:
+                continue
+            lb = lb or (q + '#lb') in S.vs
+            ub = ub or (q + '#ub') in S.vs
+            w = S.vs.get(q)
+            if w is not None and w[0] == 'in' and w[1] and all(isinstance(x, int) for x in w[1]):
+                lb = lb or min(w[1]) >= 0
+                ub = True
+        old = self.idxs.get(node.id)
+        if old is not None:
+            lb, ub = lb and old['lb'], ub and old['ub']
+        self.idxs[node.id] = {'node': node, 'lb': lb, 'ub': ub, 'src': iv.src, 'path': iv.path, 'alias': S.ali.get(iv.path) if iv.path else None,
+                              'ctx': self.context(S) if old is None else old['ctx']}
+
+    def out_taints(self):
+        """{parameter index: (src, lb, ub)} for pointer parameters through which, on every normal return, a value of the input has been stored"""
+        out = {}
+        if not self.ret_facts:
+            return out
+        for i, p in enumerate(self.params):
+            r = '%s@%s' % (p.name, p.id)
+            if r in self.assigned_params or (pointee(p.type) or '').strip() not in INT_SPELLINGS:
+                continue
+            q = r + '[]'
+            src, lb, ub, ok = None, True, True, True
+            for c, S in self.ret_facts:
+                f = S.nul.get(q)
+                if f is None or f[0] not in ('N', 'NN', 'NULL') or f[1] is None or f[1][0] != 'zero':
+                    ok = False
+                    break
+                src = src or f[1]
+                w = S.vs.get(q)
+                ints = w is not None and w[0] == 'in' and w[1] and all(isinstance(x, int) for x in w[1])
+                lb = lb and ((q + '#lb') in S.vs or (ints and min(w[1]) >= 0))
+                ub = ub and ((q + '#ub') in S.vs or bool(ints))
+            if ok and src is not None:
+                out[i] = (src, lb, ub)
+        return out
+
     def note_fstore(self, S, lhs, v, node, p=None):
         """store of an integer value into a record field (for the rule on fields that are used as divisors; flags set at construction)"""
         e = lhs
@@ -1325,6 +1376,14 @@ class Engine:
                 if a.kind == 'UnaryOperator' and a.opcode == '&':
                     s.kill(v.addr_of)
                     s.nul[v.addr_of] = ('U', None)
+                    ot = self.W.out_taint.get((c, i)) if self.W.resolve(self.u, c) is not None else None
+                    if ot is not None:
+                        # the callee has stored a value of the input there (with the bounds every return of the callee guarantees)
+                        s.nul[v.addr_of] = ('N', ('zero', '%s()' % c, 'stored through parameter %d of %s(): %s' % (i + 1, c, ot[0][2] if len(ot[0]) > 2 else ot[0][1])))
+                        if ot[1]:
+                            s.vs[v.addr_of + '#lb'] = ('in', frozenset([1]))
+                        if ot[2]:
+                            s.vs[v.addr_of + '#ub'] = ('in', frozenset([1]))
             elif v.path is not None and (args[i].type or '').replace(' ', '').endswith('**'):
                 s.kill(v.path + '[]')          # a pointer handed on: the callee may store through it
                 s.nul[v.path + '[]'] = ('U', None)
@@ -1493,6 +1552,26 @@ class Engine:
                             if f_nz:
                                 f.nul[pv.path] = ('NN', pv.src)
                                 f.vs.pop(pv.path + '#rel', None)
+                        # bounds of a value of the input (for host array indices): `#lb` = not negative, `#ub` = limited from above by some test
+                        for pv, cv, o in ((va, vb, op), (vb, va, {'<': '>', '>': '<', '<=': '>=', '>=': '<='}[op])):
+                            if pv.path is None or not self.is_zero_tracked(s, pv):
+                                continue
+                            if cv.const is not None and cv.path is None:
+                                c = cv.const
+                                t_lb = (o == '>' and c >= -1) or (o == '>=' and c >= 0)
+                                f_lb = (o == '<' and c >= 0) or (o == '<=' and c >= -1)
+                                ubc = True
+                            else:
+                                lbc = cv.path is not None and any((q + '#lb') in s.vs for q in (cv.path, s.ali.get(cv.path)) if q)
+                                t_lb = lbc and o in ('>', '>=')
+                                f_lb = lbc and o in ('<', '<=')
+                                # the other side limits from above unless it is itself a value of the input that nothing limits
+                                ubc = not (cv.src is not None and cv.src[0] in ZSRC) or (cv.path is not None and any((q + '#ub') in s.vs for q in (cv.path, s.ali.get(cv.path)) if q))
+                            for st, lb, ub in ((s, t_lb, ubc and o in ('<', '<=')), (f, f_lb, ubc and o in ('>', '>='))):
+                                if lb:
+                                    st.vs[pv.path + '#lb'] = ('in', frozenset([1]))
+                                if ub:
+                                    st.vs[pv.path + '#ub'] = ('in', frozenset([1]))
                         T.append(s)
                         F.append(f)
                 return T, F
@@ -2127,6 +2206,8 @@ class Engine:
         return {'T': out['T'], 'F': out['F']}
 
 
+INT_SPELLINGS = frozenset(['int', 'long', 'short', 'unsigned int', 'unsigned long', 'unsigned short', 'unsigned', 'long long', 'unsigned long long',
+                           'int64_t', 'uint64_t', 'int32_t', 'uint32_t', 'size_t', 'ssize_t'])
 ZSRC = ('zero', 'zerop')     # provenance kinds of integer values of the input: 'zerop' = received through a parameter (judged at divisions only)
 PROPAGATING = ('null', 'param', 'ret', 'arg', 'global')
 
@@ -2174,6 +2255,15 @@ def solve(W, max_rounds=12):
                         W.truth_helpers[f] = th
                         W.record_calls.add(f)
                         touched.add(f)
+                if len(W.fn_unit.get(f, ())) == 1:
+                    ots = eng.out_taints()
+                    for i in set(ots) | set(k[1] for k in W.out_taint if k[0] == f):
+                        if W.out_taint.get((f, i)) != ots.get(i):
+                            if i in ots:
+                                W.out_taint[(f, i)] = ots[i]
+                            else:
+                                del W.out_taint[(f, i)]
+                            touched.add(f)
                 for i in eng.mustdiv:
                     if not W.mustdiv.get((f, i)) and len(W.fn_unit.get(f, ())) == 1:
                         W.mustdiv[(f, i)] = True
